@@ -6,7 +6,7 @@ set -u
 name="$1"; tier="$2"; shift 2
 dir="/verif/seeded/$name"
 wt="/tmp/mut/final-$name"
-export CARGO_TARGET_DIR=/tmp/mut/target-shared CARGO_NET_OFFLINE=true
+export CARGO_TARGET_DIR=/tmp/mut/target-${LOOP:-shared} CARGO_NET_OFFLINE=true
 mkdir -p /tmp/mut
 git -C /repo worktree remove --force "$wt" >/dev/null 2>&1
 git -C /repo worktree add -q --detach "$wt" HEAD || exit 3
@@ -26,8 +26,20 @@ if [ -f "$dir/demo.rs" ]; then
   d2=$(cd "$wt" && cargo test --offline --features serde --test demo 2>&1); c2=$?
   echo "demo_without_patch: exit=$c2 $(echo "$d2" | grep -E "^test result" | head -1)" >> "$res"
   rm -f "$wt/tests/demo.rs"
+elif [ -f "$dir/demo.cpp" ]; then
+  # C++ demonstration: build the static library + generated headers in the scratch worktree, compile
+  # the demo with ASan/UBSan/LSan and run it, with and without the patch
+  cppdemo() {
+    (cd "$wt" && RESOLVO_GENERATED_INCLUDE_DIR="$wt/target-inc" cargo build --offline -p resolvo_cpp --release >/dev/null 2>&1) || { echo "build-failed"; return; }
+    clang++ -std=c++17 -g -fsanitize=address,undefined -fno-sanitize-recover=all -I"$wt/cpp/include" -I"$wt/target-inc" "$dir/demo.cpp" "$CARGO_TARGET_DIR/release/libresolvo_cpp.a" -lpthread -ldl -lm -o "$wt/demo-bin" 2>/dev/null || { echo "compile-failed"; return; }
+    ASAN_OPTIONS=detect_leaks=1 "$wt/demo-bin" >/dev/null 2>&1; echo "exit=$?"
+  }
+  echo "demo_with_patch: $(cppdemo) (C++ program under ASan+UBSan+LSan)" >> "$res"
+  git -C "$wt" apply -R "$dir/patch.diff"
+  echo "demo_without_patch: $(cppdemo) (C++ program under ASan+UBSan+LSan)" >> "$res"
+  rm -f "$wt/demo-bin"
 else
-  echo "demo: C++ program, see meta.json for the build and run commands" >> "$res"
+  echo "demo: none found" >> "$res"
 fi
 git -C /repo worktree remove --force "$wt"
 out=$(/verif/tools/mutant.sh "f-$name" "$dir/patch.diff" "$tier" "$@" 2>&1)
